@@ -614,8 +614,16 @@ class Compiler(compiler.Compiler):
         elif type_name == 'GeneralizedTime':
             compiled = GeneralizedTime(name)
         elif type_name == 'BIT STRING':
-            minimum, maximum, _ = self.get_size_range(type_descriptor,
-                                                      module_name)
+            (minimum,
+             maximum,
+             has_extension_marker) = self.get_size_range(type_descriptor,
+                                                         module_name)
+
+            # An extensible size constraint does not fix the size.
+            if has_extension_marker:
+                minimum = None
+                maximum = None
+
             compiled = BitString(name, minimum, maximum)
         elif type_name == 'ANY':
             compiled = Any(name)
